@@ -43,6 +43,8 @@ def verdict(mu, r):
     if r['status'] != 'applied':
         return r['status']
     rules = {f['rule'] for f in r['failing']}
+    if not mu['expect']:
+        return 'ok-silent' if not r['failing'] else 'FALSE-ALARM'
     if any(e in rules or any(x.startswith(e) for x in rules) for e in mu['expect']):
         return 'killed'
     if r['failing']:
